@@ -840,4 +840,260 @@ theorem flatMap_itemsFrom (fs : Dir) (h : ∀ f ∈ fs, FileOK f ∧ ∀ it ∈ 
     simp only [List.flatMap_cons, retained] at ih ⊢
     rw [ih (fun g hg => h g (List.mem_cons_of_mem _ hg)), (h f (by simp)).1.1, itemsFrom_serialise_zero _ (h f (by simp)).2]
 
+/-! ### index entries point at the first line of their second (writer invariant) -/
+
+/-- entry `e` of a file with lines `ls`; `before` / `after` = the items of the earlier / later files -/
+def EntOK (before ls after : List Item) (e : Nat × Nat) : Prop :=
+  ∃ j, j ≤ ls.length ∧ e.2 = (serialise (ls.take j)).length ∧ (∀ it ∈ before ++ ls.take j, it.ts / 1000 < e.1) ∧
+    (∀ it ∈ ls.drop j ++ after, e.1 ≤ it.ts / 1000)
+
+def EntsOK : List Item → Dir → Prop
+  | _, [] => True
+  | before, f :: rest => (∀ e ∈ f.ents, EntOK before f.lines (retained rest) e) ∧ EntsOK (before ++ f.lines) rest
+
+def allEnts (fs : Dir) : List (Nat × Nat) := fs.flatMap (·.ents)
+
+theorem retained_append (a b : Dir) : retained (a ++ b) = retained a ++ retained b := by simp [retained]
+theorem retained_cons (f : File) (r : Dir) : retained (f :: r) = f.lines ++ retained r := by simp [retained]
+theorem allEnts_append (a b : Dir) : allEnts (a ++ b) = allEnts a ++ allEnts b := by simp [allEnts]
+theorem allEnts_cons (f : File) (r : Dir) : allEnts (f :: r) = f.ents ++ allEnts r := by simp [allEnts]
+
+theorem EntsOK_split (before : List Item) (pre : Dir) (f : File) (rest : Dir) (h : EntsOK before (pre ++ f :: rest)) :
+    ∀ e ∈ f.ents, EntOK (before ++ retained pre) f.lines (retained rest) e := by
+  induction pre generalizing before with
+  | nil => simpa [retained] using h.1
+  | cons g pre ih =>
+    have := ih (before ++ g.lines) h.2
+    simpa [retained_cons, List.append_assoc] using this
+
+theorem EntOK_mono {before before' ls after : List Item} {e : Nat × Nat} (hsub : ∀ x ∈ before', x ∈ before)
+    (h : EntOK before ls after e) : EntOK before' ls after e := by
+  obtain ⟨j, hj, h1, h2, h3⟩ := h
+  refine ⟨j, hj, h1, ?_, h3⟩
+  intro it hit
+  rcases List.mem_append.1 hit with hit | hit
+  · exact h2 it (List.mem_append_left _ (hsub it hit))
+  · exact h2 it (List.mem_append_right _ hit)
+
+theorem EntsOK_mono {before before' : List Item} (fs : Dir) (hsub : ∀ x ∈ before', x ∈ before)
+    (h : EntsOK before fs) : EntsOK before' fs := by
+  induction fs generalizing before before' with
+  | nil => trivial
+  | cons f r ih =>
+    refine ⟨fun e he => EntOK_mono hsub (h.1 e he), ih ?_ h.2⟩
+    intro x hx
+    rcases List.mem_append.1 hx with hx | hx
+    · exact List.mem_append_left _ (hsub x hx)
+    · exact List.mem_append_right _ hx
+
+theorem EntsOK_drop (before : List Item) (fs : Dir) (n : Nat) (h : EntsOK before fs) : EntsOK before (fs.drop n) := by
+  induction n generalizing before fs with
+  | zero => simpa using h
+  | succ n ih =>
+    cases fs with
+    | nil => simpa using h
+    | cons f r =>
+      simp only [List.drop_succ_cons]
+      exact ih _ _ (EntsOK_mono r (fun x hx => List.mem_append_left _ hx) h.2)
+
+theorem EntsOK_snoc_empty (before : List Item) (fs : Dir) (g : File) (hl : g.lines = []) (he : g.ents = [])
+    (h : EntsOK before fs) : EntsOK before (fs ++ [g]) := by
+  induction fs generalizing before with
+  | nil => simp [EntsOK, he]
+  | cons f r ih =>
+    rw [List.cons_append, EntsOK] at *
+    refine ⟨?_, ih _ h.2⟩
+    have : retained (r ++ [g]) = retained r := by simp [retained, hl]
+    rw [this]
+    exact h.1
+
+/-- `writeIndex`: the new entry points at the end of the current file, every item so far is older -/
+theorem EntsOK_addIndex (before : List Item) (init : Dir) (cur cur' : File) (s : Nat)
+    (hl : cur'.lines = cur.lines) (he : cur'.ents = cur.ents ++ [(s, (serialise cur.lines).length)])
+    (hold : ∀ it ∈ before ++ retained init ++ cur.lines, it.ts / 1000 < s)
+    (h : EntsOK before (init ++ [cur])) : EntsOK before (init ++ [cur']) := by
+  induction init generalizing before with
+  | nil =>
+    simp only [List.nil_append, EntsOK, and_true] at h ⊢
+    intro e hee
+    rw [he] at hee
+    rw [hl]
+    rcases List.mem_append.1 hee with hee | hee
+    · exact h e hee
+    · simp only [List.mem_singleton] at hee
+      subst hee
+      refine ⟨cur.lines.length, le_refl _, by simp, ?_, by simp [retained]⟩
+      intro it hit
+      simp only [List.take_length] at hit
+      exact hold it (by simpa [retained] using hit)
+  | cons f r ih =>
+    rw [List.cons_append, EntsOK] at *
+    refine ⟨?_, ih _ ?_ h.2⟩
+    · have : retained (r ++ [cur']) = retained (r ++ [cur]) := by simp [retained, hl]
+      rw [this]
+      exact h.1
+    · intro it hit
+      exact hold it (by simpa [retained_cons, List.append_assoc] using hit)
+
+/-- `writeItemsAndFlush`: the appended items are not older than any index entry -/
+theorem EntsOK_append (before : List Item) (init : Dir) (cur cur' : File) (items : List Item) (s : Nat)
+    (hl : cur'.lines = cur.lines ++ items) (he : cur'.ents = cur.ents)
+    (hents : ∀ e ∈ allEnts (init ++ [cur]), e.1 ≤ s) (hi : ∀ it ∈ items, it.ts / 1000 = s)
+    (h : EntsOK before (init ++ [cur])) : EntsOK before (init ++ [cur']) := by
+  induction init generalizing before with
+  | nil =>
+    simp only [List.nil_append, EntsOK, and_true] at h ⊢
+    intro e hee
+    rw [he] at hee
+    obtain ⟨j, hj, h1, h2, h3⟩ := h e hee
+    have hes : e.1 ≤ s := hents e (by simp [allEnts, hee])
+    refine ⟨j, by rw [hl]; simp; omega, ?_, ?_, ?_⟩
+    · rw [hl, List.take_append_of_le_length hj]; exact h1
+    · rw [hl, List.take_append_of_le_length hj]; exact h2
+    · rw [hl, List.drop_append_of_le_length hj]
+      intro it hit
+      simp only [retained, List.flatMap_nil, List.append_nil, List.mem_append] at hit h3
+      rcases hit with hit | hit
+      · exact h3 it (by simp [hit])
+      · rw [hi it hit]; exact hes
+  | cons f r ih =>
+    rw [List.cons_append] at hents
+    rw [List.cons_append, EntsOK] at *
+    refine ⟨?_, ih _ (fun e hee => hents e (by simp [allEnts_cons, allEnts_append] at hee ⊢; tauto)) h.2⟩
+    intro e hee
+    obtain ⟨j, hj, h1, h2, h3⟩ := h.1 e hee
+    have hes : e.1 ≤ s := hents e (by simp [allEnts_cons, hee])
+    refine ⟨j, hj, h1, h2, ?_⟩
+    intro it hit
+    have hr : retained (r ++ [cur']) = retained (r ++ [cur]) ++ items := by
+      simp [retained_append, retained, hl]
+    rw [hr, ← List.append_assoc] at hit
+    rcases List.mem_append.1 hit with hit | hit
+    · exact h3 it hit
+    · rw [hi it hit]; exact hes
+
+/-! ### the invariant bundle kept by every write history -/
+
+def entLe (a b : Nat × Nat) : Prop := a.1 ≤ b.1
+
+structure Inv (w : Writer) (L : Nat) : Prop where
+  ord : Ordered w L
+  ok : ∀ f ∈ w.files, FileOK f
+  ents : EntsOK [] w.files
+  sorted : (allEnts w.files).Pairwise entLe
+  bound : ∀ e ∈ allEnts w.files, e.1 ≤ L
+
+theorem files_snoc {fs : Dir} (h : fs ≠ []) : ∃ init cur, fs = init ++ [cur] :=
+  ⟨_, _, (List.dropLast_append_getLast h).symm⟩
+
+theorem curSize_snoc (init : Dir) (cur : File) : curSize (init ++ [cur]) = cur.data.length := by
+  simp [curSize]
+
+theorem allEnts_drop_sublist (fs : Dir) (n : Nat) : (allEnts (fs.drop n)).Sublist (allEnts fs) := by
+  induction fs generalizing n with
+  | nil => simp [allEnts]
+  | cons x r ih =>
+    cases n with
+    | zero => simp
+    | succ n =>
+      simp only [List.drop_succ_cons, allEnts, List.flatMap_cons] at ih ⊢
+      exact (ih n).trans (List.sublist_append_right _ _)
+
+theorem inv_mono {w : Writer} {L L' : Nat} (h : Inv w L) (hL : L ≤ L') : Inv w L' :=
+  ⟨ordered_mono h.ord hL, h.ok, h.ents, h.sorted, fun e he => (h.bound e he).trans hL⟩
+
+def addIdxFile (cur : File) (s pos : Nat) : File :=
+  { cur with idx := cur.idx ++ be8 s ++ be8 pos, ents := cur.ents ++ [(s, pos)] }
+
+def appendFile (cur : File) (items : List Item) : File :=
+  { cur with data := cur.data ++ serialise items, lines := cur.lines ++ items }
+
+theorem inv_addIndex {w : Writer} {L : Nat} (s : Nat) (h : Inv w L) (hs : L < s) : Inv (w.addIndex s) s := by
+  obtain ⟨init, cur, hfs⟩ := files_snoc h.ord.1
+  have hcur : FileOK cur := h.ok cur (by rw [hfs]; simp)
+  have hfiles : (w.addIndex s).files = init ++ [addIdxFile cur s cur.data.length] := by
+    simp only [Writer.addIndex, hfs, modLast_snoc, curSize_snoc, addIdxFile]
+  have hret : retained w.files = retained init ++ cur.lines := by rw [hfs]; simp [retained]
+  refine ⟨ordered_mono (ordered_addIndex s h.ord) hs.le, ?_, ?_, ?_, ?_⟩
+  · exact modLast_forall FileOK _ _ h.ok (fun x hx => ⟨hx.1, by simp [hx.2, encodeIdx_append, encodeIdx]⟩)
+  · rw [hfiles]
+    refine EntsOK_addIndex [] init cur _ s rfl (by simp [addIdxFile, hcur.1]) ?_ (hfs ▸ h.ents)
+    intro it hit
+    have := h.ord.2.2 it (by rw [hret]; simpa using hit)
+    omega
+  · rw [hfiles, allEnts_append]
+    have : allEnts [addIdxFile cur s cur.data.length] = allEnts [cur] ++ [(s, cur.data.length)] := by
+      simp [allEnts, addIdxFile]
+    rw [this, ← List.append_assoc, ← allEnts_append, ← hfs, List.pairwise_append]
+    refine ⟨h.sorted, List.pairwise_singleton _ _, ?_⟩
+    intro a ha b hb
+    simp only [List.mem_singleton] at hb
+    subst hb
+    have := h.bound a ha
+    unfold entLe; dsimp only; omega
+  · rw [hfiles, allEnts_append]
+    intro e he
+    have : allEnts [addIdxFile cur s cur.data.length] = allEnts [cur] ++ [(s, cur.data.length)] := by
+      simp [allEnts, addIdxFile]
+    rw [this, ← List.append_assoc, ← allEnts_append, ← hfs] at he
+    rcases List.mem_append.1 he with he | he
+    · exact (h.bound e he).trans hs.le
+    · simp only [List.mem_singleton] at he; subst he; exact le_refl _
+
+theorem inv_append {w : Writer} {L s : Nat} (items : List Item) (h : Inv w L) (hL : L ≤ s)
+    (hi : ∀ it ∈ items, it.ts / 1000 = s) : Inv (w.append items) s := by
+  obtain ⟨init, cur, hfs⟩ := files_snoc h.ord.1
+  have hfiles : (w.append items).files = init ++ [appendFile cur items] := by
+    simp only [Writer.append, hfs, modLast_snoc, appendFile]
+  have hall : allEnts (w.append items).files = allEnts w.files := by
+    rw [hfiles, hfs]; simp [allEnts, appendFile]
+  refine ⟨ordered_append items h.ord hL hi, ?_, ?_, ?_, ?_⟩
+  · exact modLast_forall FileOK _ _ h.ok (fun x hx => ⟨by simp [hx.1, serialise_append], hx.2⟩)
+  · rw [hfiles]
+    exact EntsOK_append [] init cur _ items s rfl rfl (fun e he => (h.bound e (hfs ▸ he)).trans hL) hi (hfs ▸ h.ents)
+  · rw [hall]; exact h.sorted
+  · rw [hall]; exact fun e he => (h.bound e he).trans hL
+
+theorem inv_roll {w : Writer} {L : Nat} (ts : Nat) (h : Inv w L) : Inv (w.roll ts) L := by
+  have hall : allEnts (w.roll ts).files = allEnts (w.files.drop (w.files.length + 1 - w.maxFiles)) := by
+    simp [Writer.roll, allEnts]
+  refine ⟨ordered_roll ts h.ord, ?_, ?_, ?_, ?_⟩
+  · intro f hf
+    simp only [Writer.roll, List.mem_append, List.mem_singleton] at hf
+    rcases hf with hf | rfl
+    · exact h.ok f (List.mem_of_mem_drop hf)
+    · exact ⟨rfl, rfl⟩
+  · exact EntsOK_snoc_empty [] _ _ rfl rfl (EntsOK_drop [] _ _ h.ents)
+  · rw [hall]; exact h.sorted.sublist (allEnts_drop_sublist _ _)
+  · rw [hall]; exact fun e he => h.bound e ((allEnts_drop_sublist _ _).subset he)
+
+theorem inv_rollIf {w : Writer} {L : Nat} (c : Bool) (ts : Nat) (h : Inv w L) : Inv (w.rollIf c ts) L := by
+  unfold Writer.rollIf; split_ifs; exact inv_roll ts h; exact h
+
+theorem inv_setLatest {w : Writer} {L : Nat} (n : Nat) (h : Inv w L) : Inv { w with latestOpSec := n } L :=
+  ⟨h.ord, h.ok, h.ents, h.sorted, h.bound⟩
+
+theorem inv_write (w : Writer) (ts : Nat) (items : List Item) (h : Inv w w.latestOpSec) :
+    Inv (w.write ts items) (w.write ts items).latestOpSec := by
+  have hi : ∀ it ∈ items.map (fun i => ({ i with ts := ts, res := sanitize i.res } : Item)), it.ts / 1000 = ts / 1000 := by
+    intro it hit; rcases List.mem_map.1 hit with ⟨i, _, rfl⟩; rfl
+  unfold Writer.write
+  dsimp only
+  split_ifs with h1 h2
+  · exact h
+  · refine inv_mono (L := ts / 1000) (inv_setLatest _ ?_) (le_max_right _ _)
+    exact inv_rollIf _ _ (inv_append _ (inv_rollIf _ _ (inv_addIndex _ h h2)) (le_refl _) hi)
+  · refine inv_mono (L := ts / 1000) (inv_setLatest _ ?_) (le_max_right _ _)
+    exact inv_rollIf _ _ (inv_append _ h (by omega) hi)
+
+theorem inv_runWrites (w : Writer) (hist : List (Nat × List Item)) (h : Inv w w.latestOpSec) :
+    Inv (runWrites w hist) (runWrites w hist).latestOpSec := by
+  induction hist generalizing w with
+  | nil => exact h
+  | cons p r ih => exact ih _ (inv_write w p.1 p.2 h)
+
+theorem inv_new (now a b : Nat) : Inv (Writer.new now a b) (Writer.new now a b).latestOpSec := by
+  refine ⟨ordered_new now a b, new_filesOK now a b, ?_, ?_, ?_⟩ <;>
+    simp [Writer.new, Writer.roll, EntsOK, allEnts]
+
 end Sentinel.MetricLog
